@@ -549,7 +549,9 @@ class Interp:
                                "ZeroDivisionError": ("ArithmeticError",), "ModuleNotFoundError": ("ImportError",)}
                     what = ex.what
                     kind = what.split(":")[0].replace("raise ", "").split("(")[0].strip()
-                    if h.type is None or any(n_ in ("Exception", "BaseException") or n_ == kind or n_ in parents.get(kind, ()) for n_ in names):
+                    # exceptions that derive from BaseException directly are not caught by `except Exception`
+                    base_only = kind in BASE_ONLY_EXCEPTIONS
+                    if h.type is None or any(n_ == "BaseException" or (n_ == "Exception" and not base_only) or n_ == kind or n_ in parents.get(kind, ()) for n_ in names):
                         if h.name:
                             env[h.name] = ex
                         try:
@@ -1688,6 +1690,9 @@ def _mutates_name(st, name) -> bool:
             return True
     return False
 
+
+# raised kinds that derive from BaseException directly (Python's own, and UFL's ComplexComparisonError)
+BASE_ONLY_EXCEPTIONS = {"KeyboardInterrupt", "SystemExit", "GeneratorExit", "ComplexComparisonError"}
 
 _LOCALS_CACHE: dict = {}
 
